@@ -13,6 +13,7 @@ import (
 	"runtime/debug"
 	"strconv"
 	"sync"
+	"sync/atomic"
 	"time"
 )
 
@@ -392,7 +393,8 @@ func StopTimer(x any) bool {
 
 func runHarness(fn func(), r *Replay, out *Outcome) {
 	var s *sched
-	if r.Sched {
+	raceMode = os.Getenv("VERIF_RACE") == "1"
+	if r.Sched && !raceMode {
 		s = startSched(r.Schedule, r.Params["preempt"])
 	}
 	defer func() {
@@ -457,6 +459,12 @@ func watchdog() time.Duration {
 
 var wg sync.WaitGroup
 
+// race confirmation mode: real goroutines, no twin scheduler (its hand-over would order everything); the
+// harness threads start staggered by a sleep - which orders nothing in the memory model - in the order
+// given by VERIF_RACE_ORDER (0: together, 1: first thread first, 2: second thread first)
+var raceMode bool
+var raceStarted int32
+
 // Go starts a harness thread.
 func Go(fn func()) {
 	if s := S; s != nil {
@@ -464,8 +472,21 @@ func Go(fn func()) {
 		return
 	}
 	wg.Add(1)
+	delay := time.Duration(0)
+	if raceMode {
+		k := int(atomic.AddInt32(&raceStarted, 1)) - 1
+		switch os.Getenv("VERIF_RACE_ORDER") {
+		case "1":
+			delay = time.Duration(k) * 150 * time.Millisecond
+		case "2":
+			delay = time.Duration(1-k%2) * 150 * time.Millisecond
+		}
+	}
 	go func() {
 		defer wg.Done()
+		if delay > 0 {
+			time.Sleep(delay)
+		}
 		fn()
 	}()
 }
@@ -593,3 +614,11 @@ func BlockedThreads() int {
 func Tick()                    {}
 func TickerCount() int         { return 0 }
 func TickerPeriod(i int) int64 { return 0 }
+
+// RaceDetect switches the engine's happens-before race detection on or off (natively: nothing; a race
+// counterexample is confirmed by running the harness with real goroutines under the Go race detector).
+func RaceDetect(on bool) {}
+
+// TickerResetCount / TickerResetPeriod: calls of (*time.Ticker).Reset recorded by the engine (0 natively).
+func TickerResetCount() int         { return 0 }
+func TickerResetPeriod(i int) int64 { return 0 }
